@@ -339,6 +339,28 @@ def dtype_deviation(term):
     return None
 
 
+def c_promotion_narrower(term):
+    """first sub-term (post-order) that combines an integer (>= 32 bit) operand with a float32 operand where NumPy's result
+    type is float64: NumPy computes in float64, the C the operands are printed into computes in float (usual arithmetic
+    conversions), unless something else in the printed expression happens to be a double.  None if there is none."""
+    cache = {}
+    for o in T.all_subterms(term):
+        if T.is_scalar_term(o) or o[0] in ("ph", "dw", "dwv", "dwalias", "s", "a", "sp"):
+            continue
+        kids = [c for c in o[1:] if isinstance(c, list) and c and isinstance(c[0], str) and c[0] not in ("s", "a")
+                and not T.is_scalar_term(c)]
+        dts = []
+        for c in kids:
+            sd = _dtype_of(c, cache)
+            if sd is not None:
+                dts.append(np.dtype(sd[1]))
+        # (other operands declared float64 do not help: constants such as eye() are printed as integer literals)
+        if len(dts) >= 2 and any(d == np.float32 for d in dts) and any(d.kind in "iu" and d.itemsize >= 4 for d in dts) \
+                and not any(d.kind == "c" for d in dts):
+            return {"operand": _root_sig(o)}
+    return None
+
+
 def attribute_exception(sig, outs):
     """an exception in a program that contains a dtype-deviating sub-term is attributed to
     that deviation (e.g. xor of two pt.all(float) results, which pytato types float64)"""
